@@ -151,7 +151,7 @@ func newEnv(seed int64) (*env, error) {
 	if e.h6, err = icmp_spoofer.New6(s); err != nil {
 		return nil, err
 	}
-	e.dir, err = os.MkdirTemp("", "concdrv-")
+	e.dir, err = os.MkdirTemp(os.Getenv("VERIF_TMP"), "concdrv-") // lease file of the DHCP handler
 	if err != nil {
 		return nil, err
 	}
